@@ -38,6 +38,9 @@ func c09E2E(c *Ctx) {
 		up := gen.Pick(r, []string{"pipe", "dohs"})
 		big := gen.Pick(r, bigs)
 		name := fmt.Sprintf("ok-n%d-big%d-s%dx%d.%s.test.", r.Range(1, 8), big, i, c.Seed, up)
+		if i%10 == 7 { // fits 65535 only with full name compression: the proxy has to truncate when re-encoding
+			name = fmt.Sprintf("ok-n1-deep%d-s%dx%d.%s.test.", r.Range(1200, 2500), i, c.Seed, up)
+		}
 		qt := gen.Pick(r, []uint16{dns.TypeA, dns.TypeTXT, dns.TypeMX})
 		a := gen.Pick(r, adv)
 		q := new(dns.Msg)
